@@ -213,6 +213,267 @@ theorem readObj_ranges_sum {ls : List (Line τ α)} {gs : List (Group τ α)} {l
 
 end reader
 
+/-! ### what the reader's vertex tables contain (any input) -/
+
+section content
+variable {τ α : Type} [DecidableEq τ] (pc : τ → Except Err Corner)
+
+/-- position a token refers to in the `v` pool -/
+def vOf (pv : List (V3 α)) (t : τ) : Option (V3 α) :=
+  match pc t with
+  | .ok c => if c.v = 0 then none else pv[c.v - 1]?
+  | .error _ => none
+
+/-- 0-based `vn` / `vt` index of a token, if it has one -/
+def nIdx (t : τ) : Option Nat := match pc t with | .ok c => slot c.vn | .error _ => none
+def tIdx (t : τ) : Option Nat := match pc t with | .ok c => slot c.vt | .error _ => none
+
+/-- the tables of a group, relative to pools `pv pn pt`:
+    * `verts` is the token table resolved through the `v` pool;
+    * `normals` / `uvs` are the tokens that have a `vn` / `vt` slot, resolved through those pools;
+    * the three local indices of the k-th triangle point at the three tokens of the k-th face line. -/
+structure GInv (pv pn : List (V3 α)) (pt : List (V2 α)) (g : Group τ α) : Prop where
+  hv : g.verts.map some = g.toks.map (vOf pc pv)
+  hn : g.normals.map some = (g.toks.filterMap (nIdx pc)).map (pn[·]?)
+  ht : g.uvs.map some = (g.toks.filterMap (tIdx pc)).map (pt[·]?)
+  hf : g.tris.map (fun t => (g.toks[t.1]?, g.toks[t.2.1]?, g.toks[t.2.2]?)) =
+       g.ftoks.map (fun f => (some f.1, some f.2.1, some f.2.2))
+
+theorem map_some_mono_aux {β γ : Type} (f f' : γ → Option β) (hff : ∀ t x, f t = some x → f' t = some x) :
+    ∀ (l : List β) (ts : List γ), l.map some = ts.map f → l.map some = ts.map f'
+  | [], [], _ => rfl
+  | [], _ :: _, h => by simp at h
+  | _ :: _, [], h => by simp at h
+  | a :: l, t :: ts, h => by
+    simp only [List.map_cons, List.cons.injEq] at h ⊢
+    exact ⟨(hff t a h.1.symm).symm, map_some_mono_aux f f' hff l ts h.2⟩
+
+theorem getElem?_append_some_aux {β : Type} {l : List β} {i : Nat} {x : β} (h : l[i]? = some x) (l' : List β) :
+    (l ++ l')[i]? = some x := by
+  have hi : i < l.length := by
+    rcases Nat.lt_or_ge i l.length with hi | hi
+    · exact hi
+    · rw [List.getElem?_eq_none hi] at h; cases h
+  rw [List.getElem?_append_left hi]; exact h
+
+theorem idxOf_getElem?_aux {β : Type} [DecidableEq β] : ∀ (l : List β) (t : β), t ∈ l → l[l.idxOf t]? = some t
+  | [], _, h => by cases h
+  | a :: l, t, h => by
+    by_cases e : a = t
+    · subst e; simp
+    · have ht : t ∈ l := by rcases List.mem_cons.1 h with h | h; exact absurd h.symm e; exact h
+      have hb : (a == t) = false := by simpa using e
+      have : (a :: l).idxOf t = l.idxOf t + 1 := by simp [List.idxOf_cons, hb]
+      rw [this]
+      simpa using idxOf_getElem?_aux l t ht
+
+theorem tris_res_mono_aux (toks ext : List τ) (tris : List (Nat × Nat × Nat)) (ftoks : List (τ × τ × τ))
+    (h : tris.map (fun t => (toks[t.1]?, toks[t.2.1]?, toks[t.2.2]?)) = ftoks.map (fun f => (some f.1, some f.2.1, some f.2.2))) :
+    tris.map (fun t => ((toks ++ ext)[t.1]?, (toks ++ ext)[t.2.1]?, (toks ++ ext)[t.2.2]?)) =
+      ftoks.map (fun f => (some f.1, some f.2.1, some f.2.2)) := by
+  induction tris generalizing ftoks with
+  | nil => cases ftoks with
+    | nil => rfl
+    | cons f fs => simp at h
+  | cons t ts ih =>
+    cases ftoks with
+    | nil => simp at h
+    | cons f fs =>
+      simp only [List.map_cons, List.cons.injEq, Prod.mk.injEq] at h ⊢
+      obtain ⟨⟨h1, h2, h3⟩, hr⟩ := h
+      exact ⟨⟨getElem?_append_some_aux h1 ext, getElem?_append_some_aux h2 ext, getElem?_append_some_aux h3 ext⟩, ih fs hr⟩
+
+theorem GInv_mono_aux {pv pn : List (V3 α)} {pt : List (V2 α)} {g : Group τ α} (h : GInv pc pv pn pt g)
+    (a b : List (V3 α)) (c : List (V2 α)) : GInv pc (pv ++ a) (pn ++ b) (pt ++ c) g := by
+  refine ⟨?_, ?_, ?_, h.hf⟩
+  · refine map_some_mono_aux _ _ ?_ _ _ h.hv
+    intro t x hx
+    unfold vOf at hx ⊢
+    split at hx
+    · split at hx
+      · cases hx
+      · rename_i c e hc; simp only [hc, ↓reduceIte]; exact getElem?_append_some_aux hx a
+    · cases hx
+  · exact map_some_mono_aux _ _ (fun i x hx => getElem?_append_some_aux hx b) _ _ h.hn
+  · exact map_some_mono_aux _ _ (fun i x hx => getElem?_append_some_aux hx c) _ _ h.ht
+
+theorem filterMap_concat_aux {β γ : Type} (f : β → Option γ) (l : List β) (t : β) :
+    (l ++ [t]).filterMap f = l.filterMap f ++ (match f t with | some x => [x] | none => []) := by
+  rw [List.filterMap_append]
+  cases h : f t <;> simp [List.filterMap_cons, h]
+
+/-- one corner: the tables stay consistent, the returned index points at the token, tokens only get appended -/
+theorem addCorner_spec_aux {s : RState τ α} {g g' : Group τ α} {t : τ} {p : Nat}
+    (h : addCorner pc s g t = .ok (p, g')) (hi : GInv pc s.pv s.pn s.pt g) :
+    GInv pc s.pv s.pn s.pt g' ∧ g'.toks[p]? = some t ∧ ∃ ext, g'.toks = g.toks ++ ext := by
+  unfold addCorner at h
+  split at h
+  · rename_i hmem
+    cases h
+    exact ⟨hi, idxOf_getElem?_aux _ _ hmem, [], by simp⟩
+  · split at h
+    · cases h
+    · rename_i c hc
+      split at h
+      · cases h
+      · rename_i hv0
+        split at h
+        · cases h
+        · rename_i pos hpos
+          split at h
+          · cases h
+          · rename_i normals hnrm
+            split at h
+            · cases h
+            · rename_i uvs huv
+              cases h
+              refine ⟨⟨?_, ?_, ?_, ?_⟩, by simp, [t], rfl⟩
+              · have : vOf pc s.pv t = some pos := by simp [vOf, hc, hv0, hpos]
+                simp [hi.hv, this]
+              · simp only [filterMap_concat_aux, nIdx, hc]
+                cases hs : slot c.vn with
+                | none => simp only [hs] at hnrm; cases hnrm; simpa using hi.hn
+                | some i =>
+                  simp only [hs, Option.map_eq_some_iff] at hnrm
+                  obtain ⟨n, hn, rfl⟩ := hnrm
+                  simp [hi.hn, hn]
+              · simp only [filterMap_concat_aux, tIdx, hc]
+                cases hs : slot c.vt with
+                | none => simp only [hs] at huv; cases huv; simpa using hi.ht
+                | some i =>
+                  simp only [hs, Option.map_eq_some_iff] at huv
+                  obtain ⟨u, hu, rfl⟩ := huv
+                  simp [hi.ht, hu]
+              · exact tris_res_mono_aux g.toks [t] g.tris g.ftoks hi.hf
+
+def AllG (s : RState τ α) : Prop :=
+  (∀ g ∈ s.done, GInv pc s.pv s.pn s.pt g) ∧ GInv pc s.pv s.pn s.pt s.cur
+
+def poolV : List (Line τ α) → List (V3 α)
+  | [] => []
+  | .v p :: ls => p :: poolV ls
+  | _ :: ls => poolV ls
+def poolN : List (Line τ α) → List (V3 α)
+  | [] => []
+  | .vn p :: ls => p :: poolN ls
+  | _ :: ls => poolN ls
+def poolT : List (Line τ α) → List (V2 α)
+  | [] => []
+  | .vt p :: ls => p :: poolT ls
+  | _ :: ls => poolT ls
+
+theorem GInv_empty_aux (pv pn : List (V3 α)) (pt : List (V2 α)) (name : String) :
+    GInv pc pv pn pt ({ name := name } : Group τ α) := ⟨rfl, rfl, rfl, rfl⟩
+
+theorem step_allG_aux {s s' : RState τ α} {l : Line τ α} (hi : AllG pc s) (h : step pc s l = .ok s') :
+    AllG pc s' ∧ s'.pv = s.pv ++ poolV [l] ∧ s'.pn = s.pn ++ poolN [l] ∧ s'.pt = s.pt ++ poolT [l] := by
+  obtain ⟨hd, hc⟩ := hi
+  cases l with
+  | other t => simp only [step, Except.ok.injEq] at h; subst h; exact ⟨⟨hd, hc⟩, by simp [poolV, poolN, poolT]⟩
+  | bad e => simp [step] at h
+  | mtllib fs =>
+    simp only [step] at h
+    split at h
+    · cases h
+    · cases h; exact ⟨⟨hd, hc⟩, by simp [poolV, poolN, poolT]⟩
+  | v p =>
+    simp only [step, Except.ok.injEq] at h; subst h
+    refine ⟨⟨fun g hg => ?_, ?_⟩, by simp [poolV, poolN, poolT]⟩
+    · simpa using GInv_mono_aux pc (hd g hg) [p] [] []
+    · simpa using GInv_mono_aux pc hc [p] [] []
+  | vn p =>
+    simp only [step, Except.ok.injEq] at h; subst h
+    refine ⟨⟨fun g hg => ?_, ?_⟩, by simp [poolV, poolN, poolT]⟩
+    · simpa using GInv_mono_aux pc (hd g hg) [] [p] []
+    · simpa using GInv_mono_aux pc hc [] [p] []
+  | vt p =>
+    simp only [step, Except.ok.injEq] at h; subst h
+    refine ⟨⟨fun g hg => ?_, ?_⟩, by simp [poolV, poolN, poolT]⟩
+    · simpa using GInv_mono_aux pc (hd g hg) [] [] [p]
+    · simpa using GInv_mono_aux pc hc [] [] [p]
+  | usemtl name =>
+    simp only [step] at h
+    split at h
+    · cases h
+    · cases h
+      exact ⟨⟨hd, ⟨hc.hv, hc.hn, hc.ht, hc.hf⟩⟩, by simp [poolV, poolN, poolT]⟩
+  | g name =>
+    simp only [step] at h
+    split at h
+    · cases h
+      refine ⟨⟨?_, GInv_empty_aux pc _ _ _ _⟩, by simp [poolV, poolN, poolT]⟩
+      intro g hg
+      rcases List.mem_append.1 hg with hg | hg
+      · exact hd g hg
+      · simp only [List.mem_singleton] at hg; subst hg; exact ⟨hc.hv, hc.hn, hc.ht, hc.hf⟩
+    · cases h
+      exact ⟨⟨hd, ⟨hc.hv, hc.hn, hc.ht, hc.hf⟩⟩, by simp [poolV, poolN, poolT]⟩
+  | f a b c =>
+    simp only [step] at h
+    split at h
+    · cases h
+    · rename_i p1 g1 e1
+      split at h
+      · cases h
+      · rename_i p2 g2 e2
+        split at h
+        · cases h
+        · rename_i p3 g3 e3
+          cases h
+          obtain ⟨i1, q1, x1, hx1⟩ := addCorner_spec_aux pc e1 ⟨hc.hv, hc.hn, hc.ht, hc.hf⟩
+          obtain ⟨i2, q2, x2, hx2⟩ := addCorner_spec_aux pc e2 i1
+          obtain ⟨i3, q3, x3, hx3⟩ := addCorner_spec_aux pc e3 i2
+          refine ⟨⟨hd, ⟨i3.hv, i3.hn, i3.ht, ?_⟩⟩, by simp [poolV, poolN, poolT]⟩
+          have r1 : g3.toks[p1]? = some a := by
+            rw [hx3, hx2]; exact getElem?_append_some_aux (getElem?_append_some_aux q1 x2) x3
+          have r2 : g3.toks[p2]? = some b := by rw [hx3]; exact getElem?_append_some_aux q2 x3
+          simp [i3.hf, r1, r2, q3]
+
+theorem pool_append_aux (l : Line τ α) (ls : List (Line τ α)) :
+    poolV (l :: ls) = poolV [l] ++ poolV ls ∧ poolN (l :: ls) = poolN [l] ++ poolN ls ∧
+    poolT (l :: ls) = poolT [l] ++ poolT ls := by
+  cases l <;> simp [poolV, poolN, poolT]
+
+theorem steps_allG_aux : ∀ (ls : List (Line τ α)) {s s' : RState τ α}, AllG pc s → steps pc s ls = .ok s' →
+    AllG pc s' ∧ s'.pv = s.pv ++ poolV ls ∧ s'.pn = s.pn ++ poolN ls ∧ s'.pt = s.pt ++ poolT ls
+  | [], s, s', hi, h => by
+    simp only [steps, Except.ok.injEq] at h; subst h; exact ⟨hi, by simp [poolV, poolN, poolT]⟩
+  | l :: ls, s, s', hi, h => by
+    simp only [steps] at h
+    split at h
+    · cases h
+    · rename_i s1 e1
+      obtain ⟨hi1, a1, b1, c1⟩ := step_allG_aux pc hi e1
+      obtain ⟨hi2, a2, b2, c2⟩ := steps_allG_aux ls hi1 h
+      obtain ⟨pa, pb, pc'⟩ := pool_append_aux l ls
+      exact ⟨hi2, by rw [a2, a1, pa, List.append_assoc], by rw [b2, b1, pb, List.append_assoc],
+        by rw [c2, c1, pc', List.append_assoc]⟩
+
+/-- **What the reader's tables contain.**  For every input the reader accepts and every group it
+    returns, relative to the file's `v` / `vn` / `vt` lines (`poolV/N/T`, in file order):
+    the group's vertex `k` is the position its `k`-th distinct corner token refers to; its normals / uvs
+    are those of the tokens that carry a `vn` / `vt` slot, in token order; and the `j`-th triangle's
+    three indices point at the three tokens of the group's `j`-th face line.  Hence every corner of every
+    triangle read carries exactly the position the file's face line refers to. -/
+theorem readObj_corners {ls : List (Line τ α)} {gs : List (Group τ α)} {libs : List String}
+    (h : readObj pc ls = .ok (gs, libs)) : ∀ g ∈ gs, GInv pc (poolV ls) (poolN ls) (poolT ls) g := by
+  unfold readObj at h
+  split at h
+  · cases h
+  · rename_i s e
+    simp only [finish, Except.ok.injEq, Prod.mk.injEq] at h
+    obtain ⟨rfl, rfl⟩ := h
+    have h0 : AllG pc ({} : RState τ α) := ⟨(by intro g hg; cases hg), GInv_empty_aux pc _ _ _ _⟩
+    obtain ⟨⟨hd, hc⟩, a, b, c⟩ := steps_allG_aux pc ls h0 e
+    simp only [List.nil_append] at a b c
+    rw [← a, ← b, ← c]
+    intro g hg
+    rcases List.mem_append.1 hg with hg | hg
+    · exact hd g hg
+    · simp only [List.mem_singleton] at hg; subst hg; exact ⟨hc.hv, hc.hn, hc.ht, hc.hf⟩
+
+end content
+
 /-! ### the writer on what the reader returns -/
 
 section resave
